@@ -6,6 +6,8 @@ EXTENDS DbSessionDef, Judge
 Clauses(r) ==
   << <<"known-commands", \A i \in DOMAIN r.steps : r.steps[i].cmd \in Cmds>>,
      <<"database-files-and-listing-unchanged-after-every-step", \A i \in DOMAIN r.steps : r.steps[i].unchanged>>,
+     <<"wal-companions-only-while-a-session-is-open", \A i \in DOMAIN r.steps :
+          r.steps[i].sidecar => SessionOpen([j \in DOMAIN r.steps |-> r.steps[j].cmd], i)>>,
      <<"journal-only-while-a-statement-level-write-is-open", \A i \in DOMAIN r.steps :
           r.steps[i].journal => StmtOpen([j \in DOMAIN r.steps |-> r.steps[j].cmd], i)>>,
      \* r.lenient: the genome file is damaged or foreign (a table missing, zero bytes, another SQLite schema) - commands may fail there,
